@@ -15,6 +15,12 @@
 //!                         through the TLV::i8.. constructors + bytes_iter
 //!   D <id> <kind> <seed>  derived ToTLV/FromTLV encoders of wire structs: round trip and hostile
 //!                         mutations under catch_unwind (implementation only; tested, not modelled)
+//!   Z <id> <ty> <tag> <v> derived encoders of zoo type <ty> (harness/src/c16_zoo.rs = `zoo` of
+//!                         Model/TlvDerive.v): to_tlv / tlv_iter bytes of value <v>, and from_tlv of them
+//!   Y <id> <ty> <hex>     derived decoder of zoo type <ty> on arbitrary bytes
+//!   K <id> <ty> <cap> <prefixhex|-> <v>   to_tlv into a WriteBuf of <cap> bytes after a prefix
+//!   C <id> <cap> <tok>... a script on one WriteBuf of <cap> bytes: writer tokens, A (record
+//!                         get_tail), R<k> (rewind_to the k-th anchor)
 #![recursion_limit = "512"]
 use std::collections::BTreeMap;
 use std::fmt::Write as _;
@@ -32,6 +38,10 @@ use rs_matter::tlv::{
 };
 use rs_matter::utils::storage::WriteBuf;
 use rsm_harness::{catch, silence_panics, Rng};
+
+#[path = "../c16_zoo.rs"]
+mod zoo;
+use zoo::{DVal, Dty, D};
 
 // ------------------------------------------------------------------ canonical strings
 
@@ -391,31 +401,36 @@ fn kind_vt(k: &str) -> TLVValueType {
     }
 }
 
+/// One writer call on a `TLVWrite`.
+fn write_tok(wb: &mut WriteBuf, t: &Tok) -> Result<(), Error> {
+    let tag = &t.tag;
+    match t.kind.as_str() {
+        "L" => wb.tlv(tag, &val_of(&t.arg, &t.payload)),
+        "N" => wb.start_container(tag, kind_vt(&t.arg)),
+        "E" => wb.end_container(),
+        "i1" => wb.i8(tag, t.arg.parse().unwrap()),
+        "i2" => wb.i16(tag, t.arg.parse().unwrap()),
+        "i4" => wb.i32(tag, t.arg.parse().unwrap()),
+        "i8" => wb.i64(tag, t.arg.parse().unwrap()),
+        "u1" => wb.u8(tag, t.arg.parse().unwrap()),
+        "u2" => wb.u16(tag, t.arg.parse().unwrap()),
+        "u4" => wb.u32(tag, t.arg.parse().unwrap()),
+        "u8" => wb.u64(tag, t.arg.parse().unwrap()),
+        "f32" => wb.f32(tag, f32::from_bits(t.arg.parse().unwrap())),
+        "f64" => wb.f64(tag, f64::from_bits(t.arg.parse().unwrap())),
+        "str" => wb.str(tag, &t.payload),
+        "utf8" => wb.utf8(tag, core::str::from_utf8(&t.payload).unwrap()),
+        "bool" => wb.bool(tag, t.arg == "1"),
+        "null" => wb.null(tag),
+        other => panic!("bad op {}", other),
+    }
+}
+
 /// Write the tokens through `TLVWrite`.
 fn write_direct(toks: &[Tok], buf: &mut [u8]) -> Result<Vec<u8>, Error> {
     let mut wb = WriteBuf::new(buf);
     for t in toks {
-        let tag = &t.tag;
-        match t.kind.as_str() {
-            "L" => wb.tlv(tag, &val_of(&t.arg, &t.payload))?,
-            "N" => wb.start_container(tag, kind_vt(&t.arg))?,
-            "E" => wb.end_container()?,
-            "i1" => wb.i8(tag, t.arg.parse().unwrap())?,
-            "i2" => wb.i16(tag, t.arg.parse().unwrap())?,
-            "i4" => wb.i32(tag, t.arg.parse().unwrap())?,
-            "i8" => wb.i64(tag, t.arg.parse().unwrap())?,
-            "u1" => wb.u8(tag, t.arg.parse().unwrap())?,
-            "u2" => wb.u16(tag, t.arg.parse().unwrap())?,
-            "u4" => wb.u32(tag, t.arg.parse().unwrap())?,
-            "u8" => wb.u64(tag, t.arg.parse().unwrap())?,
-            "f32" => wb.f32(tag, f32::from_bits(t.arg.parse().unwrap()))?,
-            "f64" => wb.f64(tag, f64::from_bits(t.arg.parse().unwrap()))?,
-            "str" => wb.str(tag, &t.payload)?,
-            "utf8" => wb.utf8(tag, core::str::from_utf8(&t.payload).unwrap())?,
-            "bool" => wb.bool(tag, t.arg == "1")?,
-            "null" => wb.null(tag)?,
-            other => panic!("bad op {}", other),
-        }
+        write_tok(&mut wb, t)?;
     }
     Ok(wb.as_slice().to_vec())
 }
@@ -959,8 +974,309 @@ fn run_line(line: &str, out: &mut String) {
         }
         "T" | "W" => run_writer(f[0], f[1], &f[2..], out),
         "D" => run_derived(f[1], f[2], f[3].parse().unwrap(), out),
+        "Z" => run_z(&f, out),
+        "Y" => run_y(&f, out),
+        "K" => run_k(&f, out),
+        "C" => run_c(&f, out),
         _ => {}
     }
+}
+
+// ------------------------------------------------------------------ zoo cases
+
+fn z_enc<'a, T: D<'a> + ToTLV>(v: &'a DVal, tag: &TLVTag) -> (String, Option<Vec<u8>>) {
+    match zoo::enc::<T>(v, tag) {
+        Err(_) => ("E".into(), None),
+        Ok((direct, Some(it))) if it == direct => (hex_or_dash(&direct), Some(direct)),
+        Ok((direct, Some(it))) => (format!("{}!=iter:{}", hex_or_dash(&direct), hex(&it)), Some(direct)),
+        Ok((direct, None)) => (format!("{}!=iter:E", hex_or_dash(&direct)), Some(direct)),
+    }
+}
+
+fn z_dec<'b, T: D<'b> + FromTLV<'b>>(bytes: &'b [u8]) -> String {
+    match zoo::dec::<T>(bytes) {
+        Ok(v) => format!("={}", v.show()),
+        Err(_) => "E".into(),
+    }
+}
+
+fn z_cap<'a, T: D<'a> + ToTLV>(v: &'a DVal, cap: usize, prefix: &[u8]) -> (bool, Vec<u8>) {
+    zoo::enc_cap::<T>(v, &TLVTag::Anonymous, cap, prefix)
+}
+
+fn hex_or_dash(b: &[u8]) -> String {
+    if b.is_empty() {
+        "-".into()
+    } else {
+        hex(b)
+    }
+}
+
+fn decode_with(ty: usize, bytes: &[u8]) -> String {
+    match catch(AssertUnwindSafe(|| crate::zoo_dispatch!(ty, z_dec, bytes))) {
+        Ok(s) => s,
+        Err(_) => "P".into(),
+    }
+}
+
+fn run_z(f: &[&str], out: &mut String) {
+    let ty: usize = f[2].parse().unwrap();
+    let tag = tag_of(f[3]);
+    let v = DVal::parse(f[4]);
+    let (e, bytes) = match catch(AssertUnwindSafe(|| crate::zoo_dispatch!(ty, z_enc, &v, &tag))) {
+        Ok(x) => x,
+        Err(_) => ("P".to_string(), None),
+    };
+    let d = match &bytes {
+        Some(b) => decode_with(ty, b),
+        None => "-".into(),
+    };
+    writeln!(out, "Z {} {} {}", f[1], e, d).unwrap();
+}
+
+fn run_y(f: &[&str], out: &mut String) {
+    let ty: usize = f[2].parse().unwrap();
+    let bytes = unhex(f[3]);
+    writeln!(out, "Y {} {}", f[1], decode_with(ty, &bytes)).unwrap();
+}
+
+fn run_k(f: &[&str], out: &mut String) {
+    let ty: usize = f[2].parse().unwrap();
+    let cap: usize = f[3].parse().unwrap();
+    let prefix = unhex(f[4]);
+    let v = DVal::parse(f[5]);
+    match catch(AssertUnwindSafe(|| crate::zoo_dispatch!(ty, z_cap, &v, cap, &prefix))) {
+        Ok((ok, sl)) => writeln!(out, "K {} {} {}", f[1], if ok { "0" } else { "E" }, hex_or_dash(&sl)).unwrap(),
+        Err(_) => writeln!(out, "K {} P -", f[1]).unwrap(),
+    }
+}
+
+fn run_c(f: &[&str], out: &mut String) {
+    let cap: usize = f[2].parse().unwrap();
+    let r = catch(AssertUnwindSafe(|| {
+        let mut buf = vec![0u8; cap];
+        let mut res = String::new();
+        let sl;
+        {
+            let mut wb = WriteBuf::new(&mut buf);
+            let mut anchors: Vec<usize> = Vec::new();
+            for t in &f[3..] {
+                if *t == "A" {
+                    anchors.push(TLVWrite::get_tail(&wb));
+                } else if let Some(k) = t.strip_prefix('R') {
+                    let k: usize = k.parse().unwrap();
+                    if let Some(a) = anchors.get(k) {
+                        TLVWrite::rewind_to(&mut wb, *a);
+                    }
+                } else {
+                    let tok = parse_tok(t);
+                    res.push(if write_tok(&mut wb, &tok).is_ok() { '0' } else { 'E' });
+                }
+            }
+            sl = wb.as_slice().to_vec();
+        }
+        (res, sl, buf)
+    }));
+    match r {
+        Ok((res, sl, mem)) => writeln!(
+            out,
+            "C {} {} {} {}",
+            f[1],
+            if res.is_empty() { "-".to_string() } else { res },
+            hex_or_dash(&sl),
+            hex_or_dash(&mem)
+        )
+        .unwrap(),
+        Err(_) => writeln!(out, "C {} P - -", f[1]).unwrap(),
+    }
+}
+
+// ---- generation of zoo values and hostile encodings
+
+fn gen_int(r: &mut Rng, signed: bool, w: u8) -> i128 {
+    let bits = 8 * w as u32;
+    if signed {
+        let z = pick_i64(r);
+        let z = if bits == 64 { z } else { (z << (64 - bits)) >> (64 - bits) };
+        let lo = if bits == 64 { i64::MIN } else { -(1i64 << (bits - 1)) };
+        let hi = if bits == 64 { i64::MAX } else { (1i64 << (bits - 1)) - 1 };
+        (match r.below(8) {
+            0 => lo,
+            1 => hi,
+            2 => lo + 1,
+            _ => z,
+        }) as i128
+    } else {
+        let n = pick_u64(r);
+        let hi = if bits == 64 { u64::MAX } else { (1u64 << bits) - 1 };
+        (match r.below(8) {
+            0 => hi,
+            1 => hi - 1,
+            _ => n & hi,
+        }) as i128
+    }
+}
+
+fn gen_val(r: &mut Rng, d: &Dty) -> DVal {
+    match d {
+        Dty::Int(s, w) => DVal::Int(gen_int(r, *s, *w)),
+        Dty::Bool => DVal::Bool(r.chance(1, 2)),
+        Dty::F32 => DVal::Bits(*r.pick(&[0u64, 0x3eaa_aaab, 0x7f80_0000, 0xff80_0000, 0x8000_0000, 0x4049_0fdb])),
+        Dty::F64 => DVal::Bits(*r.pick(&[0u64, 0x3fd5_5555_5555_5555, 0x7ff0_0000_0000_0000, 1 << 63, 0x4009_21fb_5444_2d18])),
+        Dty::Octets => {
+            let n = match r.below(6) {
+                0 => 0,
+                1 => 255,
+                2 => 256,
+                _ => r.below(12) as usize,
+            };
+            DVal::Bytes(gen_bytes(r, n))
+        }
+        Dty::Utf8 => {
+            let n = r.below(10) as usize;
+            DVal::Bytes(gen_utf8(r, n))
+        }
+        Dty::Option(d) => {
+            if r.chance(1, 3) {
+                DVal::None
+            } else {
+                DVal::Some(Box::new(gen_val(r, d)))
+            }
+        }
+        Dty::Nullable(d) => {
+            if r.chance(1, 3) {
+                DVal::Null
+            } else {
+                DVal::NN(Box::new(gen_val(r, d)))
+            }
+        }
+        Dty::Vec(cap, d) => {
+            let n = r.below(*cap as u64 + 1) as usize;
+            DVal::List((0..n).map(|_| gen_val(r, d)).collect())
+        }
+        Dty::Fixed(n, d) => DVal::List((0..*n).map(|_| gen_val(r, d)).collect()),
+        Dty::Struct(fs) => DVal::Rec(fs.iter().map(|d| gen_val(r, d)).collect()),
+        Dty::Enum(vs) => {
+            let i = r.below(vs.len() as u64) as usize;
+            DVal::Var(i, Box::new(gen_val(r, &vs[i])))
+        }
+        Dty::Unit(vals) => DVal::Unit(r.below(vals.len() as u64) as usize),
+    }
+}
+
+fn z_bytes<'a, T: D<'a> + ToTLV>(v: &'a DVal) -> Option<Vec<u8>> {
+    zoo::enc::<T>(v, &TLVTag::Anonymous).ok().map(|x| x.0)
+}
+
+/// children of the top-level container of `enc` as (start, end) offsets
+fn children(enc: &[u8]) -> Option<Vec<(usize, usize)>> {
+    let seq = TLVElement::new(enc).container().ok()?;
+    let mut starts = Vec::new();
+    for c in seq.iter() {
+        starts.push(enc.len() - c.ok()?.raw_data().len());
+    }
+    let mut out = Vec::new();
+    for (i, s) in starts.iter().enumerate() {
+        let e = if i + 1 < starts.len() { starts[i + 1] } else { enc.len() - 1 };
+        out.push((*s, e));
+    }
+    Some(out)
+}
+
+fn hostile_structural(enc: &[u8], r: &mut Rng) -> Vec<(&'static str, Vec<u8>)> {
+    let mut v: Vec<(&'static str, Vec<u8>)> = Vec::new();
+    for cut in 0..enc.len() {
+        v.push(("y-truncated", enc[..cut].to_vec()));
+    }
+    for _ in 0..6 {
+        let mut m = enc.to_vec();
+        let i = r.below(m.len() as u64) as usize;
+        m[i] = match r.below(3) {
+            0 => *r.pick(&[0x18u8, 0x15, 0x16, 0x17, 0x14, 0x24, 0x25, 0x30, 0x2c]),
+            1 => m[i] ^ (1 << r.below(8)),
+            _ => r.next() as u8,
+        };
+        v.push(("y-byte", m));
+    }
+    let mut tr = enc.to_vec();
+    tr.extend([0x24, 0x00, 0x09]);
+    v.push(("y-trailing", tr));
+    if let Some(ch) = children(enc) {
+        let head = if ch.is_empty() { enc.len() - 1 } else { ch[0].0 };
+        let build = |parts: &[&[u8]]| {
+            let mut m = enc[..head].to_vec();
+            for p in parts {
+                m.extend_from_slice(p);
+            }
+            m.push(0x18);
+            m
+        };
+        let slices: Vec<&[u8]> = ch.iter().map(|(s, e)| &enc[*s..*e]).collect();
+        // a field removed
+        for i in 0..slices.len() {
+            let parts: Vec<&[u8]> = slices.iter().enumerate().filter(|(j, _)| *j != i).map(|(_, s)| *s).collect();
+            v.push(("y-field-removed", build(&parts)));
+        }
+        // fields in another order
+        if slices.len() > 1 {
+            let mut rev = slices.clone();
+            rev.reverse();
+            v.push(("y-reordered", build(&rev)));
+            let mut rot = slices.clone();
+            rot.rotate_left(1);
+            v.push(("y-reordered", build(&rot)));
+        }
+        // unknown extra fields
+        let extras: [&[u8]; 5] = [
+            &[0x24, 0x4d, 0x01],
+            &[0x35, 0x4e, 0x24, 0x00, 0x01, 0x24, 0x01, 0x02, 0x18],
+            &[0x04, 0x05],
+            &[0x44, 0x01, 0x00, 0x07],
+            &[0x36, 0x4f, 0x18],
+        ];
+        for x in extras {
+            for pos in [0usize, slices.len() / 2, slices.len()] {
+                let mut parts = slices.clone();
+                parts.insert(pos, x);
+                v.push(("y-extra-field", build(&parts)));
+            }
+        }
+        // a field twice (the first one counts)
+        for i in 0..slices.len() {
+            let mut parts = slices.clone();
+            parts.push(slices[i]);
+            v.push(("y-duplicate", build(&parts)));
+        }
+        // a field of another type under the same tag
+        for i in 0..slices.len() {
+            let c = slices[i];
+            if c[0] >> 5 == 1 {
+                let k = c[1];
+                let repl: [Vec<u8>; 6] = [
+                    vec![0x34, k],
+                    vec![0x29, k],
+                    vec![0x27, k, 1, 2, 3, 4, 5, 6, 7, 8],
+                    vec![0x2c, k, 0x01, 0x41],
+                    vec![0x35, k, 0x18],
+                    vec![0x36, k, 0x04, 0x01, 0x18],
+                ];
+                for x in &repl {
+                    let mut parts = slices.clone();
+                    parts[i] = x;
+                    v.push(("y-type-confused", build(&parts)));
+                }
+            }
+        }
+        // another container type
+        for b in [0x15u8, 0x16, 0x17] {
+            if enc[0] & 0x1f != b & 0x1f {
+                let mut m = enc.to_vec();
+                m[0] = (m[0] & 0xe0) | (b & 0x1f);
+                v.push(("y-container-kind", m));
+            }
+        }
+    }
+    v
 }
 
 // ------------------------------------------------------------------ gen
@@ -1659,6 +1975,89 @@ fn gen(tier: &str, seed: u64, outdir: &str) {
         for _ in 0..per_kind {
             let s = r.next() >> 1;
             o.push("derived", "D", format!("{} {}", k, s));
+        }
+    }
+
+    // 6. the zoo of derived types against the generic model of the derive scheme
+    let per_ty = if thorough { 160 } else { 30 };
+    for &ty in zoo::ZOO.iter() {
+        let d = zoo::zoo_dty(ty);
+        for i in 0..per_ty {
+            let v = gen_val(r, &d);
+            let tag = if i % 3 == 0 { TLVTag::Anonymous } else { gen_tag(r, true) };
+            o.push("zoo-roundtrip", "Z", format!("{} {} {}", ty, tag_s(&tag), v.show()));
+        }
+        // decoder on hostile variants of valid encodings
+        let n_y = if thorough { 24 } else { 5 };
+        for _ in 0..n_y {
+            let v = gen_val(r, &d);
+            if let Some(enc) = crate::zoo_dispatch!(ty, z_bytes, &v) {
+                o.push("y-valid", "Y", format!("{} {}", ty, hex(&enc)));
+                for (stream, m) in hostile_structural(&enc, r) {
+                    if !m.is_empty() {
+                        o.push(stream, "Y", format!("{} {}", ty, hex(&m)));
+                    }
+                }
+            }
+        }
+        for _ in 0..(if thorough { 200 } else { 20 }) {
+            let n = 1 + r.below(10) as usize;
+            let mut b = gen_bytes(r, n);
+            b[0] = *r.pick(&[0x15u8, 0x17, 0x16, 0x04, 0x05, 0x24, 0x14]);
+            o.push("y-random", "Y", format!("{} {}", ty, hex(&b)));
+        }
+        // to_tlv into a WriteBuf of every capacity around the size of the encoding
+        let n_k = if thorough { 8 } else { 2 };
+        for j in 0..n_k {
+            let v = gen_val(r, &d);
+            if let Some(enc) = crate::zoo_dispatch!(ty, z_bytes, &v) {
+                let prefix: Vec<u8> = if j % 2 == 0 { Vec::new() } else { vec![0x15, 0x24, 0x00] };
+                let top = prefix.len() + enc.len() + 2;
+                for cap in prefix.len()..=top {
+                    if enc.len() <= 60 || cap < prefix.len() + 12 || cap + 12 > top || r.chance(1, 6) {
+                        o.push(
+                            "zoo-capacity",
+                            "K",
+                            format!("{} {} {} {}", ty, cap, hex_or_dash(&prefix), v.show()),
+                        );
+                    }
+                }
+            }
+        }
+    }
+    // 7. WriteBuf scripts: writer calls, anchors and rewinds, under every capacity
+    let n_scripts = if thorough { 400 } else { 60 };
+    for si in 0..n_scripts {
+        let t = gen_root(r, 1 + (si % 3) as u32, &mut hist);
+        let mut toks = Vec::new();
+        gtree_toks(&t, &mut toks);
+        let mut enc = Vec::new();
+        let mut lens = Vec::new();
+        genc(&t, &mut enc, &mut lens);
+        if enc.len() > 120 {
+            continue;
+        }
+        // sprinkle anchors and rewinds
+        let mut script: Vec<String> = Vec::new();
+        let mut n_anchor = 0usize;
+        for tk in toks {
+            if r.chance(1, 4) {
+                script.push("A".into());
+                n_anchor += 1;
+            }
+            script.push(tk);
+            if n_anchor > 0 && r.chance(1, 6) {
+                script.push(format!("R{}", r.below(n_anchor as u64)));
+            }
+        }
+        if si % 2 == 0 {
+            // the pattern of the chunker: anchor, try to write, rewind on failure, write something small
+            script.insert(0, "A".into());
+            script.push(format!("R{}", 0));
+            script.push("u1,c1,7".into());
+        }
+        for cap in 0..=enc.len() + 2 {
+            o.push("writebuf-script", "C", format!("{} {}", cap, script.join(" ")));
         }
     }
 
